@@ -186,6 +186,8 @@ def main(tier):
         per[r["name"]] = {"executions": r["executions"], "states": r["states"], "terminal_observations": r["terminals"],
                           "capped": r["capped"]}
         for vd in r["verdicts"]:
+            if vd["verdict"] == "violation" and vd["kind"] == "residue-only" and r["spec"].get("faults"):
+                continue  # residue after a call hit by an injected fault: information only
             if vd["verdict"] == "violation":
                 rep.violation(tscen.sig_of(r["spec"], vd),
                               {"spec": r["spec"], "schedule": vd["schedule"], "terminal": vd["terminal"], "kind": vd["kind"]})
